@@ -17,6 +17,10 @@ impl EventListeners {
 /// any expression that wraps a user closure or converts a name (Arc::new(f), FnListener::new(..), name.into(), "..".to_string()):
 /// its value is irrelevant here — the claims are about the OTHER fields of the builder
 #[verifier::external_body] pub fn vx_wrap<T>() -> (r: T) { unimplemented!() }
+/// `Arc::new(x)` of a user closure / object handed to a setter: the stored value is a function of x alone (so "the first one wins" or
+/// "ignored" is visible), nothing else is known about it
+pub uninterp spec fn wrapped<A, T>(a: A) -> T;
+#[verifier::external_body] pub fn vx_wrap_of<A, T>(a: A) -> (r: T) ensures r == wrapped::<A, T>(a) { unimplemented!() }
 pub struct Listener { pub id: Ghost<int> }
 pub open spec fn max1(n: usize) -> usize { if n >= 1 { n } else { 1 } }
 #[verifier::external_body] pub fn vx_max(a: usize, b: usize) -> (r: usize) ensures r == (if a >= b { a } else { b }) { unimplemented!() }
@@ -174,7 +178,7 @@ impl HedgeConfigBuilder {
             r.config.name == self.config.name && r.config.max_hedged_attempts == self.config.max_hedged_attempts && r.config.listeners == self.config.listeners,   // #keeps_every_other_setting [C12]
     //@body HedgeConfigBuilder::no_delay file=hgconfig
     pub fn delay_fn<F>(self, f: F) -> (r: Self)
-        ensures r.config.delay is Dynamic,   // #sets_the_per_attempt_delay_function [C12]
+        ensures r.config.delay == HedgeDelay::Dynamic(wrapped(f)),   // #sets_the_per_attempt_delay_function [C12]
             r.config.name == self.config.name && r.config.max_hedged_attempts == self.config.max_hedged_attempts && r.config.listeners == self.config.listeners,   // #keeps_every_other_setting [C12]
     //@body HedgeConfigBuilder::delay_fn file=hgconfig
     pub fn on_event<L>(self, listener: L) -> (r: Self)
